@@ -396,6 +396,7 @@ type orderCase struct {
 	Layers   map[string]int `json:"layers"`
 	Reported []int          `json:"reported"`
 	Counted  int            `json:"counted"` // crossings of the installed order, counted naively
+	GoOnly   bool           `json:"go_only,omitempty"`
 	Panic    string         `json:"panic,omitempty"`
 }
 
@@ -500,8 +501,37 @@ func runOrderUnit(seed uint64, n int, outDir string) int {
 		cases = append(cases, c)
 	}
 	flush()
+	// volume: the kernel re-computes the whole heuristic on the cases above; many more layerings are run through the
+	// implementation alone and judged by what they report against a naive count on the order they install
+	// (an order touched after the count was taken shows up here); only the disagreeing ones are kept
+	extra, bad := 150*n, 0
+	for i := 0; i < extra && bad < 3; i++ {
+		c := genOrderCase(r)
+		var a autog.VerifSnap
+		func() {
+			defer func() {
+				if rec := recover(); rec != nil {
+					c.Panic = fmt.Sprint(rec)
+				}
+			}()
+			_, a, c.Reported = autog.VerifOrder(graph.EdgeSlice(c.Edges), c.Layers)
+		}()
+		if c.Panic == "" {
+			c.Counted = naiveCrossingsIn(a)
+			sum := 0
+			for _, x := range c.Reported {
+				sum += x
+			}
+			if len(c.Reported) == 0 || sum == c.Counted {
+				continue
+			}
+		}
+		bad++
+		c.GoOnly = true
+		cases = append(cases, c)
+	}
 	writeJSON(outDir+"/units.json", cases)
-	fmt.Printf("unit order: %d cases into %d shards\n", len(cases), nshard)
+	fmt.Printf("unit order: %d cases into %d shards, %d more through the implementation alone\n", len(cases), nshard, extra)
 	return 0
 }
 
